@@ -1,4 +1,5 @@
 import Crusta.Proofs.DynReplay
+import Crusta.Proofs.StoreRows
 
 /-!
 # The queries of the dynamic solvers answer for the pending framework
@@ -222,10 +223,14 @@ theorem cachedSkep_spec : ∀ (evs : List Event) (l : Nat) (b : Bool) (e : List 
 
 /-! ## the solve step of a query -/
 
+/-- the invariant between two API calls as the queries need it: `DInv`, the validity of the pending
+framework (with duplicate-free index rows, which the grounded computation of the preferred solver
+relies on) and the soundness of the cache -/
 structure QInv (sem : DSem) (d : DState) (w : World) : Prop where
   dinv : DInv sem d w
   pend_inv : d.pending.Inv
   cache : CacheSound sem d
+  pend_rows : d.pending.RowsNodup
 
 theorem EInv_congr {sem : DSem} {st : Store} {dirty : Nat → Prop} {e : Enc} {w w' : World}
     (hdb : w'.db 0 = w.db 0) (h : EInv sem st dirty e w) : EInv sem st dirty e w' := by
@@ -265,14 +270,16 @@ theorem assumpsTrue_append (ν : Asg) (a b : List Lit) :
     assumpsTrue ν (a ++ b) = (assumpsTrue ν a && assumpsTrue ν b) := by
   simp [assumpsTrue, List.all_append]
 
-/-- appending a computation to the buffer of a synchronised state -/
-theorem QInv_push {sem : DSem} {d : DState} {w w' : World} (h : QInv sem d w) (hdb : w'.db 0 = w.db 0)
+/-- appending a computation to the buffer of a synchronised state (the clause database may have
+changed, as long as it still encodes the framework cleanly) -/
+theorem QInv_push' {sem : DSem} {d : DState} {w w' : World} (h : QInv sem d w) (hw : W0 w')
+    (hclean : EInv sem d.af (fun _ => False) d.enc w')
     (hsync : d.af = d.pending) (hnext : d.next = d.buffer.length) {c : Event} (hc : c.isUpdate = false)
     (hsound : CompSound sem d.pending c) : QInv sem { d with buffer := d.buffer ++ [c] } w' := by
   have hle : d.next ≤ (d.buffer ++ [c]).length := by
     have := h.dinv.next_le
     simp; omega
-  refine ⟨⟨h.dinv.af_inv, EInv_congr hdb h.dinv.clean, h.dinv.disabled, ?_, hle⟩, h.pend_inv, ?_⟩
+  refine ⟨⟨hw, h.dinv.af_inv, hclean, h.dinv.disabled, ?_, hle⟩, h.pend_inv, ?_, h.pend_rows⟩
   · show EffRun d.af ((d.buffer ++ [c]).drop d.next) d.pending
     rw [hnext, List.drop_append_of_le_length (Nat.le_refl _), List.drop_length, List.nil_append]
     have : Event.op c = none := by cases c <;> simp_all [Event.isUpdate, Event.op]
@@ -286,6 +293,12 @@ theorem QInv_push {sem : DSem} {d : DState} {w w' : World} (h : QInv sem d w) (h
     rcases hc' with rfl | hc'
     · exact hsound
     · exact h.cache c' hc'
+
+/-- appending a computation to the buffer of a synchronised state -/
+theorem QInv_push {sem : DSem} {d : DState} {w w' : World} (h : QInv sem d w) (hw : W0 w') (hdb : w'.db 0 = w.db 0)
+    (hsync : d.af = d.pending) (hnext : d.next = d.buffer.length) {c : Event} (hc : c.isUpdate = false)
+    (hsound : CompSound sem d.pending c) : QInv sem { d with buffer := d.buffer ++ [c] } w' :=
+  QInv_push' h hw (EInv_congr hdb h.dinv.clean) hsync hnext hc hsound
 
 theorem wp_argLit {C : Prop} {sem : DSem} {d : DState} {w : World} (h : QInv sem d w) (hsync : d.af = d.pending)
     {l id : Nat} (hl : d.pending.Live id l) (Q : Nat → World → Prop) :
@@ -333,7 +346,7 @@ theorem wp_credSolve {sem : DSem} (hsem : sem ≠ .PR) {d : DState} {w : World} 
     rw [wp_bind]
     apply wp_needLabels _ _ _ _ trivial
     intro _ _
-    refine ⟨QInv_push h (by simp) hsync hnext rfl ?_, rfl, ?_⟩
+    refine ⟨QInv_push h (W0_onSolve h.dinv.w0 _ _ _) (by simp) hsync hnext rfl ?_, rfl, ?_⟩
     · intro e he
       injection he with he; subst he
       refine ⟨hext, ?_, by simp⟩
@@ -358,7 +371,7 @@ theorem wp_credSolve {sem : DSem} (hsem : sem ≠ .PR) {d : DState} {w : World} 
       refine ⟨fun _ => ⟨_, rfl, hext, (hmem id).2 ⟨hidl, hν⟩⟩, fun hf => by simp at hf⟩
   · -- unsatisfiable
     intro hunsat
-    refine ⟨QInv_push h (by simp) hsync hnext rfl (by intro e he; cases he), rfl, ?_⟩
+    refine ⟨QInv_push h (W0_onSolve h.dinv.w0 _ _ _) (by simp) hsync hnext rfl (by intro e he; cases he), rfl, ?_⟩
     intro id' hl'
     rw [huniq id' hl']
     refine ⟨fun hf => by simp at hf, fun _ => ⟨rfl, ?_⟩⟩
@@ -407,7 +420,7 @@ theorem wp_stSkepSolve {d : DState} {w : World} (h : QInv .ST d w)
     rw [wp_bind]
     apply wp_needLabels _ _ _ _ trivial
     intro _ _
-    refine ⟨QInv_push h (by simp) hsync hnext rfl ?_, rfl, ?_⟩
+    refine ⟨QInv_push h (W0_onSolve h.dinv.w0 _ _ _) (by simp) hsync hnext rfl ?_, rfl, ?_⟩
     · intro e he
       injection he with he; subst he
       refine ⟨hext, by simp, ?_⟩
@@ -437,7 +450,7 @@ theorem wp_stSkepSolve {d : DState} {w : World} (h : QInv .ST d w)
     rw [wp_bind, wp_needArg (by rw [hsync]; exact hpinv) (by rw [hsync]; exact hl), wp_bind]
     apply wp_needLabels _ _ _ _ trivial
     intro ref _
-    refine ⟨QInv_push h (by simp) hsync hnext rfl (by intro e he; cases he), rfl, ?_⟩
+    refine ⟨QInv_push h (W0_onSolve h.dinv.w0 _ _ _) (by simp) hsync hnext rfl (by intro e he; cases he), rfl, ?_⟩
     intro id' hl'
     rw [huniq id' hl']
     refine ⟨fun _ => ⟨rfl, ?_⟩, fun hf => by simp at hf⟩
@@ -457,7 +470,7 @@ theorem wp_stSkepSolve {d : DState} {w : World} (h : QInv .ST d w)
 
 theorem QInv_of_update {sem : DSem} {d d' : DState} {w w' : World} (h : QInv sem d w)
     (hd : DInv sem d' w') (hp : d'.pending = d.pending) (hb : d'.buffer = d.buffer) : QInv sem d' w' := by
-  refine ⟨hd, by rw [hp]; exact h.pend_inv, ?_⟩
+  refine ⟨hd, by rw [hp]; exact h.pend_inv, ?_, by rw [hp]; exact h.pend_rows⟩
   intro c hc
   rw [hp]
   rw [hb] at hc
